@@ -191,7 +191,7 @@ def expr_job(job):
                 real = float(np.asarray(cg2.eval_node(cg2.var_updates['non-DEs']['zz'])).reshape(-1)[0])
                 if abs(real - rv_) > 1e-7 * max(1, abs(rv_)):
                     tally.sat_confirmed += 1
-                    out['violations'].append(dict(kind='eval-node', what=f"eval_node('{rhs}') = {real}, arithmetic "
+                    out['violations'].append(dict(kind='eval-node-value', what=f"eval_node('{rhs}') = {real}, arithmetic "
                                                   f"value is {rv_}", env=env))
                 else:
                     tally.sat_spurious += 1
@@ -240,6 +240,10 @@ def run(tier='quick', seed=0, only=None, verbose=False):
         rep.program(job['key'], sample=dict(key=job['key'], equation=r['eq'], emitted=r['src'][-400:],
                                             eval_node=r.get('eval_verdict')) if rep.programs % 29 == 0 else None,
                     nontrivial='compile_error' not in r)
+        if 'compile_error' in r and any(k in r['compile_error'] for k in ('ComplexInfinity', 'zoo', 'nan')):
+            # the random tree divides by an expression that sympy reduces to 0 (e.g. x/(pi - pi)): no value to compare
+            rep.inconcl(dict(key=job['key'], equation=r['eq'], what='expression divides by zero'))
+            continue
         if 'compile_error' in r:
             rec = dict(property='C05', key=job['key'], equation=r['eq'], kind='compile-raises',
                        what=f"{job['key']}: equation `{r['eq']}` over the documented grammar is rejected: "
